@@ -444,12 +444,15 @@ def canon(ctx, node, fi: FuncInfo) -> str:
 
 def same(ctx, fi: FuncInfo, node, *expected: str) -> bool:
     """Does `node` equal one of the expected expressions (given as source text) up to call-argument style?"""
-    got = canon(ctx, node, fi)
+    inl = symex.INLINER
+    got = canon(ctx, inl.apply(node, fi) if inl is not None else node, fi)
     for e in expected:
         try:
             en = ast.parse(e, mode='eval').body
         except SyntaxError:
             continue
+        if inl is not None:
+            en = inl.apply(en, fi)
         if canon(ctx, en, fi) == got:
             return True
     return False
